@@ -235,6 +235,25 @@ def rule_order(ctx):
     okq = len(q) == 1 and any(k.arg == "safe" and isinstance(k.value, ast.Constant) and k.value.value == "" for k in q[0].keywords)
     perchar = any(isinstance(n, ast.For) and unparse(n.iter) == params_of(ue)[0] and any(c is q[0] for c in ast.walk(n)) for n in ast.walk(ue)) if q else False
     ctx.check("C20.order", okq and perchar, wu, q[0] if q else ue, "every character of the value must be quoted with no safe characters", "per-character quote(safe='')")
+    # elements of a bytes value are ints: each must reach quote() as that one byte (bytes / bytearray of the single
+    # element), never as a code point (chr(b) is quoted as its UTF-8 encoding: two escapes for b >= 0x80)
+    from ..types import expr_types
+    if q and perchar:
+        loop = [n for n in ast.walk(ue) if isinstance(n, ast.For) and any(c is q[0] for c in ast.walk(n))][0]
+        cv = loop.target.id if isinstance(loop.target, ast.Name) else None
+        int_branches = [n for n in ast.walk(loop) if isinstance(n, ast.If) and "int" in unparse(n.test) and cv and cv in unparse(n.test)]
+        okb = None
+        what = "no branch converts the int elements of a bytes value"
+        if len(int_branches) == 1 and unparse(q[0].args[0]) == cv:
+            rebinds = [st_ for st_ in int_branches[0].body if isinstance(st_, ast.Assign) and isinstance(st_.targets[0], ast.Name) and st_.targets[0].id == cv]
+            if len(rebinds) == 1:
+                ts = expr_types(repo, cls, ue, rebinds[0].value)
+                v = rebinds[0].value
+                single = isinstance(v, ast.Call) and len(v.args) == 1 and isinstance(v.args[0], (ast.List, ast.Tuple)) and len(v.args[0].elts) == 1 and unparse(v.args[0].elts[0]) == cv
+                okb = bool(ts) and ts <= {"bytes", "bytearray"} and single
+                what = "the int element is turned into %s (%s)" % (unparse(v), "/".join(sorted(ts)))
+        ctx.check("C20.order", okb, wu, int_branches[0] if int_branches else loop, "a byte of a bytes value must be quoted as that single byte (bytes([b]) / bytearray([b])): %s, so bytes >= 0x80 are percent-encoded as the UTF-8 form of a code point (two escapes) and the server decodes another value" % what,
+                  "each byte quoted as itself")
     rep = [c for c in ast.walk(ue) if isinstance(c, ast.Call) and isinstance(c.func, ast.Attribute) and c.func.attr == "replace" and len(c.args) == 2
            and all(isinstance(a, ast.Constant) and isinstance(a.value, str) for a in c.args)]
     for c in rep:
@@ -256,7 +275,7 @@ def rule_order(ctx):
 def run(ctx):
     ctx.rule("C20.hmac", "keyed-hash construction shape of getToken", floor=6)
     ctx.rule("C20.env", "envelope provenance in encryptParams", floor=6)
-    ctx.rule("C20.order", "parameter order and percent-encoding table", floor=9)
+    ctx.rule("C20.order", "parameter order and percent-encoding table", floor=10)
     ctx.assume("SHA-1, base64, X25519 agreement and AES-GCM primitives are trusted; equality with independent computations is not decided")
     rule_hmac(ctx)
     rule_env(ctx)
